@@ -105,6 +105,14 @@ def run_fit(job):
         del _verif_trace.events[:]
         eg = red.ExponentiatedGradient(RC.ExactLearner(), M.make_moment(kind, ratio), eps=eps_b, max_iter=max_iter, nu=nu, eta0=eta0,
                                        run_linprog_step=bool(run_lp), objective=None if costs is None else red.ErrorRate(costs={"fp": costs[0], "fn": costs[1]}))
+        if (which + max_iter) % 3 == 2 and n > 1 and costs is None:
+            # the SAME estimator object was fitted before on the same rows in another order (same size, other data positionally):
+            # what the second fit certifies must be about the data of the second fit
+            d0 = M.materialise(case, seed, which + 1)
+            if d0["y"] != d["y"] or d0["g"] != d["g"] or d0["f"] != d["f"]:
+                eg.fit(d0["X"], np.array(d0["y"]), sensitive_features=d0["g"])
+                res["info"]["refit"] = True
+                del _verif_trace.events[:]
         eg.fit(d["X"], np.array(d["y"]), sensitive_features=d["g"])
         events = list(_verif_trace.events)
     except Exception as e:
